@@ -51,7 +51,7 @@ Definition oracle_ok (c : case) : bool :=
      queue_ok eb gb db t_client_closed_connection && queue_ok ec gc dc t_client_closed_connection) &&
   (* the cancelled consumer itself: every delivery that was queued for it before the cancel is
      still there, in order - cancelling takes nothing out of the queue -, then ClientCancelled *)
-  (if mode =? 1 then list_eqb N.eqb a_seen (ea ++ [t_client_cancelled]) else true).
+  (if (mode =? 3) || (mode =? 4) then true else list_eqb N.eqb a_seen (ea ++ [t_client_cancelled])).
 
 Definition model_agrees (c : case) : bool := oracle_ok c.
 Definition model_out (c : case) : bool := oracle_ok c.
